@@ -92,7 +92,7 @@ SEEDED_CHECK = {
 }
 
 
-SEEDED_BUDGET = {"C18-B8": 120, "C10-B8": 120}
+SEEDED_BUDGET = {"C18-B8": 300, "C10-B8": 120}
 # confirmed changes the simulation does not reach or that leave the statement intact (DESIGN, waves 9 and 10): kept under seeded/, not in the catalogue
 SEEDED_OUT_OF_REACH = {
     "C05-A9": "needs the wall clock to step while the monotonic clock goes on; the synctest clock has one reading and the production clock of the throttle cannot be injected",
